@@ -160,6 +160,10 @@ def pooled_constant(ref, test):
     return len(set(ref.tolist()) | set(test.tolist())) == 1
 
 
+def opt_name(kw):
+    return "default" if not kw else (next(iter(kw)) if len(kw) == 1 else "combination")
+
+
 def monitor(ck, w, ref, test, kw, kind, seed=0):
     """One (detector, data, options) case against the direct call.  Returns the implementation's outcome."""
     cls = W[w]["cls"]
@@ -182,8 +186,11 @@ def monitor(ck, w, ref, test, kw, kind, seed=0):
         return impl
     exp = direct(w, ref, test, kw, seed)
     if impl[0] == "exc" and exp[0] == "exc":
-        if impl[1] != exp[1]:
-            ck.violation(dict(clause="raises", detector=cls, option="+".join(sorted(kw))), dict(base, wrapper_error=impl[1:], direct_error=exp[1:]))
+        m = re.search(r"multiple values for keyword argument '(\w+)'", impl[2])
+        if impl[1] != exp[1] and m:
+            ck.violation(dict(clause="option-honoured", detector=cls, option=m.group(1), error="TypeError"), dict(base, what="an accepted option is rejected (the option combination is invalid for SciPy as well, with another error)", error=impl[1:], direct_error=exp[1:]))
+        elif impl[1] != exp[1]:
+            ck.violation(dict(clause="raises", detector=cls, option=opt_name(kw)), dict(base, wrapper_error=impl[1:], direct_error=exp[1:]))
         ck.count("both-raise")
         return impl
     if impl[0] == "exc":
@@ -194,19 +201,19 @@ def monitor(ck, w, ref, test, kw, kind, seed=0):
                 dict(base, what="an accepted option is rejected: the direct SciPy call with the same option succeeds", error=impl[1:], direct=[jl(exp[1]), jl(exp[2])]),
             )
         else:
-            ck.violation(dict(clause="raises", detector=cls, option="+".join(sorted(kw))), dict(base, error=impl[1:], direct=[jl(exp[1]), jl(exp[2])]))
+            ck.violation(dict(clause="raises", detector=cls, option=opt_name(kw)), dict(base, error=impl[1:], direct=[jl(exp[1]), jl(exp[2])]))
         return impl
     if exp[0] == "exc":
-        ck.violation(dict(clause="named-result", detector=cls, option="+".join(sorted(kw))), dict(base, what="direct call raises, the detector returns", direct_error=exp[1:], got=[jl(impl[1]), jl(impl[2])]))
+        ck.violation(dict(clause="named-result", detector=cls, option=opt_name(kw)), dict(base, what="direct call raises, the detector returns", direct_error=exp[1:], got=[jl(impl[1]), jl(impl[2])]))
         return impl
     if not (arr_close(impl[1], exp[1]) and arr_close(impl[2], exp[2])):
         ck.violation(
-            dict(clause="named-result", detector=cls, option="+".join(sorted(kw)) or "default"),
+            dict(clause="named-result", detector=cls, option=opt_name(kw)),
             dict(base, what="(statistic, p-value) differ from the named test on (reference, test) with these options", got=[jl(impl[1]), jl(impl[2])], expected=[jl(exp[1]), jl(exp[2])]),
         )
     pk = p_kind(impl[2])
     if pk:
-        if w == "Welch" and pooled_constant(ref, test):
+        if w != "Chi" and pooled_constant(ref, test):
             ck.count("undefined-test-input(all pooled values equal)")
         else:
             sig = dict(clause="p-range", detector=cls, kind=pk)
@@ -477,6 +484,8 @@ def run(ck: Check):
             for kw in singles + combos:
                 if kw.get("method") == "exact" and max(n, m) > 20:
                     continue
+                if kw.get("permutations") is not None and kw.get("trim", 0) != 0:
+                    continue  # SciPy: "Permutations are currently not supported with trimming."
                 if w == "BWS" and n + m > 30 and kw.get("method") is None and pi % 3:
                     continue  # 9999 resamples each: keep a third of them
                 r = monitor(ck, w, ref, test, kw, kind, seed=pi)
